@@ -1360,4 +1360,87 @@ Proof.
   reflexivity.
 Qed.
 
+(* ---- function types: the second pass over the parameters ---- *)
+Definition rawq (q : param) : param :=
+  match q with
+  | (Some a, None) => (None, Some (XIdent 0 a))
+  | (name, t) => (name, omap norm t)
+  end.
+Definition normq (q : param) : param := (fst q, omap norm (snd q)).
+
+(* the shape of a parameter in a list whose last one is named (nm) or not *)
+Definition shape_ok (nm : bool) (q : param) : bool :=
+  if nm then is_some (fst q) else negb (is_some (fst q)) && is_some (snd q).
+
+Definition named_of (l : list param) : bool :=
+  match last l (None, None) with (Some _, _) => true | _ => false end.
+
+Lemma pass_run nm ei : forall l i,
+  forallb (shape_ok nm) l = true ->
+  (forall j, ei = Some j -> forall k a, nth_error l k = Some (Some a, None) -> (i + k)%nat <> j) ->
+  params_pass nm ei i (map rawq l) = Some (map normq l).
+Proof.
+  induction l as [|[name t] r IH]; intros i hsh hei; [reflexivity|].
+  cbn [forallb] in hsh. apply andb_prop in hsh. destruct hsh as [hq hr].
+  cbn [map params_pass].
+  assert (hrec : params_pass nm ei (S i) (map rawq r) = Some (map normq r)).
+  { apply IH; [exact hr|]. intros j hj k a hk. specialize (hei j hj (S k) a hk). lia. }
+  unfold shape_ok in hq. cbn [fst snd] in hq.
+  destruct name as [a|], t as [t|]; cbn [rawq omap]; rewrite hrec; unfold normq; cbn [fst snd omap]; destruct nm; try reflexivity; try discriminate.
+  - (* a grouped name: its raw form is the identifier as a type *)
+    assert (hne : match ei with Some j => Nat.eqb i j | None => false end = false).
+    { destruct ei as [j|]; [|reflexivity]. apply Nat.eqb_neq. intros ->. apply (hei j eq_refl 0%nat a eq_refl). lia. }
+    rewrite hne. reflexivity.
+Qed.
+
+Lemma last_map_rawq l : l <> [] -> forallb (shape_ok (named_of l)) l = true ->
+  (match snd (last l (None, None)) with Some _ => True | None => False end) ->
+  match last (map rawq l) (None, None) with (Some _, _) => true | _ => false end = named_of l.
+Proof.
+  intros hne hsh hty. destruct (exists_last hne) as [front [q ->]]. unfold named_of in *.
+  rewrite map_app. cbn [map]. rewrite !last_last in *. destruct q as [[a|] [t|]]; cbn in *; try reflexivity; contradiction.
+Qed.
+
+Lemma nth_error_snoc {A} (l : list A) x : nth_error (l ++ [x]) (length l) = Some x.
+Proof. rewrite nth_error_app2 by lia. rewrite Nat.sub_diag. reflexivity. Qed.
+
+Lemma finish_run l v isr rest :
+  l <> [] -> forallb (shape_ok (named_of l)) l = true ->
+  (match snd (last l (None, None)) with Some _ => True | None => False end) ->
+  (forall front q, l = front ++ [q] -> forall k a, nth_error front k = Some (Some a, None) -> True) ->
+  (v = true -> isr = false /\
+     forall front q2 q, l = front ++ [q2; q] -> match snd q2 with Some _ => True | None => False end) ->
+  params_finish isr (map rawq l) (if v then Some (length l - 1)%nat else None) rest = ROk (Some (map normq l), v, rest).
+Proof.
+  intros hne hsh hty _ hv. unfold params_finish.
+  rewrite (last_map_rawq l hne hsh hty).
+  destruct (exists_last hne) as [front [q hl]].
+  assert (hpass : params_pass (named_of l) (if v then Some (length l - 1)%nat else None) 0 (map rawq l) = Some (map normq l)).
+  { apply pass_run; [exact hsh|]. intros j hj k a hk. destruct v; [|discriminate]. injection hj as <-.
+    subst l.
+    assert (hlt : (k < length (front ++ [q]))%nat) by (apply nth_error_Some; rewrite hk; discriminate).
+    rewrite app_length in *. cbn [length] in *.
+    intros heq. assert (k = length front) by lia. subst k. rewrite nth_error_snoc in hk. injection hk as ->.
+    rewrite last_last in hty. exact hty. }
+  replace (match map rawq l with [] => false | _ :: _ => named_of l end) with (named_of l)
+    by (destruct l; [contradiction|reflexivity]).
+  rewrite hpass. destruct v; [|reflexivity].
+  destruct (hv eq_refl) as [-> h2].
+  subst l. rewrite app_length. cbn [length]. replace (length front + 1 - 1)%nat with (length front) by lia.
+  rewrite map_app. cbn [map].
+  replace (length front) with (length (map normq front)) at 1 by apply map_length.
+  rewrite nth_error_snoc. rewrite last_last in hty. destruct q as [nq [tq|]]; [|contradiction]. unfold normq at 1. cbn [fst snd omap].
+  assert (hfin : final_index (map normq front ++ [normq (nq, Some tq)]) (length front) = length front).
+  { destruct front as [|f0 front0] using rev_ind; [reflexivity|]. clear IHfront0.
+    rewrite app_length. cbn [length]. replace (length front0 + 1)%nat with (S (length front0)) by lia.
+    cbn [final_index]. rewrite map_app. cbn [map]. rewrite <- app_assoc. cbn [app].
+    replace (length front0) with (length (map normq front0)) at 1 by apply map_length.
+    rewrite nth_error_app2 by lia. rewrite Nat.sub_diag. cbn [nth_error].
+    specialize (h2 front0 f0 (nq, Some tq)). rewrite <- app_assoc in h2. specialize (h2 eq_refl).
+    destruct f0 as [n0 [t0|]]; [reflexivity|contradiction]. }
+  rewrite hfin. rewrite app_length, map_length. cbn [length].
+  replace (S (length front) =? length front + 1)%nat with true by (symmetry; apply Nat.eqb_eq; lia).
+  reflexivity.
+Qed.
+
 End Main.
